@@ -172,10 +172,14 @@ theorem removeMember_to {b : Broker} {k : SessKey} {id pub0 : Nat} {x : Send}
   unfold Broker.removeMember at h
   split at h
   · cases h
-  · dsimp only at h
+  · rename_i sub hf
+    have hsub := (findId_some hf).1
+    dsimp only at h
     split at h
-    · exact ⟨mem_delSub (metaEvent_to h).1, (metaEvent_to h).2⟩
-    · cases h
+    · rcases List.mem_append.mp h with h | h
+      · exact ⟨mem_delSub (metaEvent_to h).1, (metaEvent_to h).2⟩
+      · exact ⟨mem_delSub (metaEvent_to h).1, (metaEvent_to h).2⟩
+    · exact ⟨mem_setSub_filter hsub (metaEvent_to h).1, (metaEvent_to h).2⟩
 
 theorem removeMembers_mem (k : SessKey) : ∀ (l : List Nat) (b : Broker) (pub0 : Nat) (k' : SessKey),
     (b.removeMembers k pub0 l).1.mem k' → b.mem k'
